@@ -48,7 +48,7 @@ from harness.common import Model, canon, ok, raised, s2l
 sys.path.insert(0, os.path.join(common.VERIF, "tr"))
 import rx2coq  # noqa: E402
 
-FACTS = ("tables", "c14")
+FACTS = ("tables", "c11", "c14")
 
 RULE = ("configurations drawn from a seeded generator (0-2 paths with optional per-path locales, "
         "0-4 rules with single/list paths, absent/literal/re:/list/nested-list keys, three actions; "
